@@ -7,6 +7,7 @@ import (
 	"fmt"
 	"os"
 	"strings"
+	"time"
 
 	"github.com/lidofinance/dc4bc/client/services/node"
 	"github.com/lidofinance/dc4bc/client/types"
@@ -41,7 +42,7 @@ func addReinitParticipant(w *World, old int) (int, error) {
 // variants of genuine messages of a signing batch (these parts belong to the
 // C09 and C10 checks: verification must be back on after a reinit).
 func runC20(w *World, tier string, advMode string) (bool, interface{}) {
-	prop := map[string]string{"": "C20", "c09": "C09", "c10": "C10", "c04": "C04", "c14": "C14"}[advMode]
+	prop := map[string]string{"": "C20", "c09": "C09", "c10": "C10", "c04": "C04", "c14": "C14", "c02": "C02"}[advMode]
 	n, t := pickNT(w, tier)
 	if n > 4 && tier != "thorough" {
 		n = 4
@@ -127,6 +128,11 @@ func runC20(w *World, tier string, advMode string) (bool, interface{}) {
 		}
 		oldMsgs = f
 		w.Stats.Fault("log-without-self-confirmations")
+	}
+	// the dump is old: the reinitialisation happens long after the ceremony
+	if w.Tape.Bool(1, 3, "oldDump") {
+		w.Advance([]time.Duration{8 * 24 * time.Hour, 45 * 24 * time.Hour, 4 * 365 * 24 * time.Hour}[w.Tape.Choose(3, "dumpAge")])
+		w.Stats.Fault("clock-jump-before-reinit")
 	}
 	// the dump's record identifiers: a file board stamps a uuid on every record,
 	// a Kafka export carries none except on the records a node built itself
@@ -288,6 +294,21 @@ func runC20(w *World, tier string, advMode string) (bool, interface{}) {
 	}
 	if w.Failed() {
 		return true, nil
+	}
+	if advMode == "c02" {
+		// "whenever a round reaches the signing-ready state on any node": also when it
+		// gets there through a reinitialisation. Same invariant on key material as C02.
+		ready := 0
+		for _, idx := range newIdx {
+			if w.Nodes[idx].RoundState(round) == StIdle {
+				ready++
+			}
+		}
+		if ready == 0 {
+			return false, "no node signing-ready after the reinitialisation"
+		}
+		checked := checkKeyMaterial(w, round, newIdx, t, "C02")
+		return checked, map[string]interface{}{"n": n, "t": t, "adv": advMode, "ready_after_reinit": ready}
 	}
 	// ---- signing afterwards: verifies under the ORIGINAL group key -------------------
 	judged := 0
@@ -453,6 +474,7 @@ func init() {
 	Register(&Scenario{Prop: "C09", Name: "C09-reinit", Run: func(w *World, tier string) (bool, interface{}) { return runC20(w, tier, "c09") }})
 	Register(&Scenario{Prop: "C10", Name: "C10-reinit", Run: func(w *World, tier string) (bool, interface{}) { return runC20(w, tier, "c10") }})
 	Register(&Scenario{Prop: "C14", Name: "C14-reinit", Run: func(w *World, tier string) (bool, interface{}) { return runC20(w, tier, "c14") }})
+	Register(&Scenario{Prop: "C02", Name: "C02-reinit", Run: func(w *World, tier string) (bool, interface{}) { return runC20(w, tier, "c02") }})
 	Register(&Scenario{Prop: "C04", Name: "C04-reinit", Run: func(w *World, tier string) (bool, interface{}) { return runC20(w, tier, "c04") }})
 }
 
